@@ -691,15 +691,29 @@ def blocks_cases(tier, rng, name, per_dict=2):
     bat = small_battery(tier, rng, 30 if thorough else 8)
     bat = [x for x in bat if len(x[1]) >= 2]
     bat.append(("many", gen.g2_dict(r, 1500 if thorough else 400, 26, "mixed")))
+    # keys whose length drifts slowly: consecutive blocks of a byte-based cut hold close but different
+    # numbers of strings (their hash tables are sized independently)
+    nd = 9000 if thorough else 5000
+    al = gen.ALPHABETS[26]
+    drift = []
+    for i in range(nd):
+        head = [al[(i // 676) % 26], al[(i // 26) % 26], al[i % 26]]     # increasing: sorted order = i order
+        tail = [r.choice(al) for _ in range(4 + (1 if r.range(0, nd - 1) < i else 0))]
+        drift.append(bytes(head + tail))
+    drift = sorted(set(drift))
+    bat.append(("drift", drift))
     cases = []
     for dname, S in bat:
         total = sum(len(s) + 1 for s in S)
-        for cut in sorted(set([1, 8, 64, max(1, total // 2), total, total + 10])):
+        cuts = [1, 8, 64, max(1, total // 2), total, total + 10]
+        if len(S) >= 300:
+            cuts += [max(1, total // 6), max(1, total // 11)]
+        for cut in sorted(set(cuts)):
             ops = []
             for k in range(per_dict):
                 strat = r.choice([0, 1, 3, 4, 5])
                 ops.append(["blocksdet", strat, r.below(1 << 30), 2, 3, r.choice([8, 16])])
-            ops += [["rt", hx(s)] for s in S[:6]] + [["exts"]]
+            ops += [["loc", hx(s)] for s in (S[:6] + S[-3:])] + [["exts"]]
             cases.append(("%s_%s_cut%d" % (name, dname, cut), "dict", "BLOCKS", {"ov": r.choice([0, 25]), "cut": cut, "thr": r.choice([2, 4])}, S, ops))
     return cases
 
@@ -979,6 +993,14 @@ def repair_inputs(tier, rng):
         for s_ in S:
             seq2 += [0x80] + list(s_) + [255, 0]
         out.append(seq2)
+    # large varied inputs: the compressor's pair table (linear probing, tombstones) and its heap are only
+    # stressed by thousands of rules
+    for nstr, alpha in ((2500, 26), (1200, 253)) + (((6000, 26),) if thorough else ()):
+        S = gen.g2_dict(r, nstr, alpha, "mixed")
+        seq = []
+        for s_ in S:
+            seq += list(s_) + [0]
+        out.append(seq)
     return out
 
 
